@@ -58,3 +58,31 @@ chk("C12", "exploration",
     "Classification trusts the clang CLI to agree with libclang (disagreements are counted, not judged). Non-termination is restated as a CPU bound.",
     "runtime monitoring: hostile/mutated/fault workloads with crash, error-value and CPU-bound oracles",
     "DESIGN.md §4 C12")
+
+chk("C13", "exploration",
+    "Builder configurations expressed as Builder method calls (dispatcher generated from the signatures in options/mod.rs): every "
+    "single option with every enumerated/sampled value, pairs of boolean options, random configurations of up to 25 options with "
+    "hostile string arguments; each is turned into flags, parsed back in a child process (clap exits on error), turned into flags "
+    "again, and all three of builder / parsed-back builder / real CLI must generate byte-identical bindings on C and C++ trigger headers.",
+    "Options with process-level side effects (emit_*, time_phases, header set, rustfmt paths, depfile) are covered by C11/C15/C17 instead.",
+    "runtime monitoring: round-trip executions builder->flags->builder->CLI with output-equality oracle",
+    "DESIGN.md §4 C13")
+
+chk("C15", "fault_enumeration",
+    "(A) none / rustfmt / prettyplease on repository headers and generated programs: proc_macro2 token sequences compared strictly, "
+    "then under exactly three recorded formatter normalisations (known findings), header comment and raw lines counted and ordered. "
+    "(B) 21 enumerated fault modes of the formatter child x small/large (>64 KiB pipe) bindings x rustfmt configuration present/absent "
+    "through the CLI, and each fault through write / write_to_file / to_string: the call must succeed, output must be token-identical "
+    "to unformatted bindings, no panic/signal, CPU bound respected.",
+    "Fault list is mine (exit codes, signals, partial/invalid output, stdin/stdout pipe behaviours); a formatter exiting 0 with different well-formed text is outside the claim.",
+    "runtime monitoring: enumerated child-process fault injection + token-identity oracle",
+    "DESIGN.md §4 C15")
+
+chk("C17", "exploration",
+    "Generated include DAGs with a model of which files are read; depfile prerequisites (clang/ninja-convention lexer), recorded "
+    "header_file/include_file callbacks, clang -M and the model must agree as sets; GNU make consumes the depfile (make -q after "
+    "touching each prerequisite); depfile target must be the configured name; CargoCallbacks output vs reported files and consulted "
+    "environment variables, with probes that an environment variable which changes the bindings is announced.",
+    "clang -M is the independent witness of 'read'; cases where my model and clang -M disagree are inconclusive. GNU make only for names without backslashes.",
+    "runtime monitoring: set-equality oracle over depfile / callbacks / clang -M + make as consumer",
+    "DESIGN.md §4 C17")
